@@ -21,3 +21,17 @@ Example writing_shared_state_interferes :
   map snd (filter (fun p => Nat.eqb (fst p) 0) (wrun 0%N [0; 1]%nat)) <>
   map snd (filter (fun p => Nat.eqb (fst p) 0) (wrun 0%N [1; 0]%nat)).
 Proof. vm_compute. discriminate. Qed.
+
+(* the same with the general writer protocol of Model/Interleave.v: a step that bumps the shared value is not read_only, and
+   two schedules with the same per-thread counts give thread 0 different outputs (C18_read_only_... needs its premise) *)
+Definition bump (d : N) (s : N) : N * (N * N) := (N.succ d, (s, d)).
+Example bump_not_read_only : ~ read_only N N N bump.
+Proof. intro H. specialize (H 0%N 0%N). discriminate H. Qed.
+Example bump_interferes_refuted :
+  outputs_of N 0 (snd (snd (runw N N N bump 0%N [0%N; 0%N] [0; 1]%nat))) <>
+  outputs_of N 0 (snd (snd (runw N N N bump 0%N [0%N; 0%N] [1; 0]%nat))).
+Proof. vm_compute. discriminate. Qed.
+(* and the premises of C18_accepted_run_is_sequential_per_thread are met by the example run above *)
+Example ex_check_counts : count_occ Nat.eq_dec (map fst
+  [(1%nat, 33%N); (0%nat, 11%N); (2%nat, 22%N); (0%nat, 22%N); (1%nat, 33%N); (0%nat, 33%N)]) 0 <= length [1; 2; 3]%N.
+Proof. vm_compute. repeat constructor. Qed.
